@@ -1105,3 +1105,28 @@ Proof.
     (OAdd [(str "f", LStr (str "X"))]).
   vm_compute. discriminate.
 Qed.
+
+(** At every step of every schedule the two records show what two
+    independent values would show. *)
+Lemma htrace_independent lenlim limit sched : forall hp ho hc,
+  h_back ho <> h_back hc -> (h_back ho < length hp)%nat -> (h_back hc < length hp)%nat ->
+  htrace lenlim limit hp ho hc sched = ptrace lenlim limit (to_rec hp ho) (to_rec hp hc) sched.
+Proof.
+  induction sched as [|[[|] o] s IH]; intros hp ho hc Hne Ho Hc; cbn [htrace ptrace]; [reflexivity| |].
+  - destruct (hstep_self lenlim limit hp hc o Hc) as (S1 & S2 & S3).
+    pose proof (hstep_other lenlim limit hp hc o ho Hne) as S4.
+    destruct (hstep lenlim limit hp hc o) as [hp' hc']. cbn [fst snd] in *.
+    rewrite S1, S4. f_equal. rewrite IH; [now rewrite S1, S4 | congruence | lia | lia].
+  - destruct (hstep_self lenlim limit hp ho o Ho) as (S1 & S2 & S3).
+    pose proof (hstep_other lenlim limit hp ho o hc (not_eq_sym Hne)) as S4.
+    destruct (hstep lenlim limit hp ho o) as [hp' ho']. cbn [fst snd] in *.
+    rewrite S1, S4. f_equal. rewrite IH; [now rewrite S1, S4 | congruence | lia | lia].
+Qed.
+
+Theorem clone_trace_independent lenlim limit r sched :
+  clone_trace lenlim limit r sched = ptrace lenlim limit r r sched.
+Proof.
+  unfold clone_trace, on_heap, hclone. cbn [h_back h_front h_flat h_nested length app nth].
+  rewrite htrace_independent; cbn [h_back length]; try lia.
+  unfold to_rec. cbn [h_front h_back h_flat h_nested nth]. now rewrite !rec_eta.
+Qed.
